@@ -40,7 +40,7 @@ pub fn store_set(id: u32) -> (Vec<(&'static str, Vec<u8>)>, Vec<(&'static str, V
         0 => (vec![], vec![]),
         1 => (
             vec![("a.txt", b"Hello".to_vec()), ("com.x/y/z.bin", vec![0, 255, 7]), ("empty.bin", vec![])],
-            vec![("i1.png", png("1")), ("i2.png", png("two"))],
+            vec![("i1.png", png("1")), ("i2.png", png("two")), ("Cover.PNG", png("cover")), ("sketch", png("noext"))],
         ),
         _ => (
             vec![
@@ -50,7 +50,7 @@ pub fn store_set(id: u32) -> (Vec<(&'static str, Vec<u8>)>, Vec<(&'static str, V
                 ("b/d/f.txt", b"F".to_vec()),
                 ("z", vec![9; 40]),
             ],
-            vec![("only.png", png("only"))],
+            vec![("only.png", png("only")), ("Scan.Png", png("scan"))],
         ),
     }
 }
@@ -76,6 +76,36 @@ fn apply_edit(f: &mut Font, tr: &mut Track, op: &str) {
         }
         "lk" => {
             f.lib.insert("com.test.edit".into(), plist::Value::Boolean(true));
+        }
+        "fe" => {
+            // blank-only feature text is non-empty content
+            f.features = [" ", "\n", "\r\n", "\u{a0}", "\u{2003}", "\t \n"][p[1].parse::<usize>().unwrap() % 6].to_string();
+        }
+        "ge" => {
+            // a group without members is a (valid, non-empty) groups map
+            f.groups.insert(norad::Name::new("vowels").unwrap(), vec![]);
+        }
+        "ke" => {
+            f.kerning.insert(norad::Name::new("a").unwrap(), Default::default());
+        }
+        "le" => {
+            f.lib.insert("com.test.emptydict".into(), plist::Value::Dictionary(Default::default()));
+            f.lib.insert("com.test.emptyarr".into(), plist::Value::Array(vec![]));
+        }
+        "lc" => {
+            if let Ok(l) = f.layers.get_or_create_layer(&unhexs(p[1])) {
+                l.color = Some(norad::Color::new(1.0, 0.0, 0.0, 1.0).unwrap());
+            }
+        }
+        "ll" => {
+            if let Ok(l) = f.layers.get_or_create_layer(&unhexs(p[1])) {
+                l.lib.insert("k".into(), plist::Value::Boolean(true));
+            }
+        }
+        "cl" => {
+            if let Some(l) = f.layers.get_mut(&unhexs(p[1])) {
+                l.clear();
+            }
         }
         "nl" => {
             let _ = f.layers.new_layer(&unhexs(p[1]));
@@ -209,6 +239,7 @@ pub fn observe_ext(toks: &[&str], scratch: &Path, fresh: bool) -> String {
     let pre = num(toks, "pre");
     let src = sb.join("o/m/src.ufo");
     let mut tr = Track::default();
+    let mut disk_keys: Vec<(char, String)> = Vec::new();
     let mut font = if load {
         let (d, mut i) = store_set(stores);
         if sabot == 1 || sabot == 5 {
@@ -216,6 +247,16 @@ pub fn observe_ext(toks: &[&str], scratch: &Path, fresh: bool) -> String {
         }
         write_source_tree(&src, rich, &d, &i);
         craft_tree(&src, num(toks, "craft"));
+        // what is on disk below data/ and images/ when the font is loaded (independent of norad's own listing)
+        for (rel, kind, _) in snapshot(&src) {
+            if kind == 'f' {
+                if let Some(k) = rel.strip_prefix("data/") {
+                    disk_keys.push(('d', k.to_string()));
+                } else if let Some(k) = rel.strip_prefix("images/") {
+                    disk_keys.push(('i', k.to_string()));
+                }
+            }
+        }
         tr.root = Some("o/m/src.ufo".into());
         let part = num(toks, "part");
         let loaded = guarded(|| match part {
@@ -224,6 +265,11 @@ pub fn observe_ext(toks: &[&str], scratch: &Path, fresh: bool) -> String {
             2 => Font::load_requested_data(&src, norad::DataRequest::all().data(false).groups(false).filter_layers(|n, _| n != "background")),
             _ => Font::load(&src),
         });
+        match part {
+            1 => disk_keys.retain(|k| k.0 == 'd'),
+            2 => disk_keys.retain(|k| k.0 == 'i'),
+            _ => {}
+        }
         match loaded {
             Ok(Ok(f)) => f,
             _ => return "load-failed".into(),
@@ -259,6 +305,12 @@ pub fn observe_ext(toks: &[&str], scratch: &Path, fresh: bool) -> String {
     if !edits.is_empty() {
         for op in edits.split(',') {
             apply_edit(&mut font, &mut tr, op);
+            let q: Vec<&str> = op.split('.').collect();
+            if q[0] == "dr" || q[0] == "ir" {
+                let kind = if q[0] == "dr" { 'd' } else { 'i' };
+                let key = unhexs(q[1]);
+                disk_keys.retain(|k| !(k.0 == kind && k.1 == key));
+            }
         }
     }
     let target: PathBuf = if pre == 5 && load { src.clone() } else { sb.join("o/m/t.ufo") };
@@ -288,6 +340,10 @@ pub fn observe_ext(toks: &[&str], scratch: &Path, fresh: bool) -> String {
         rm_rf(&scratch.join("fresh"));
     }
     rm_rf(&sb);
+    if pre == 5 && load {
+        let keep: Vec<String> = disk_keys.iter().map(|(k, key)| format!("{}:{}", k, hexs(key))).collect();
+        extra.push_str(&format!(" KEEP={}", if keep.is_empty() { "-".to_string() } else { keep.join(",") }));
+    }
     format!("{} T={} PRE={} R={} POST={}{}", desc, trel, pre_tok, r, post_tok, extra)
 }
 
@@ -306,7 +362,11 @@ fn gen_edits(rng: &mut Rng, stores: u32) -> String {
     let n = rng.below(6);
     let mut ops = Vec::new();
     for _ in 0..n {
-        let op = match rng.below(10) {
+        let op = match rng.below(14) {
+            10 => format!("ii.{}.x", hexs(rng.pick(&ikeys[..]).as_str())), // rejected: not a PNG
+            11 => format!("fe.{}", rng.below(6)),
+            12 => (*rng.pick(&["ge", "ke", "le"])).to_string(),
+            13 => format!("{}.{}", *rng.pick(&["lc", "ll", "cl"]), hexs(*rng.pick(&["public.default", "background", "fresh"]))),
             0 => format!("gi.{}", hexs(*rng.pick(&["a", "zz", "A_b", "q.alt"]))),
             1 => format!("gr.{}", hexs(*rng.pick(&["a", "A", "zz"]))),
             2 => "lk".to_string(),
@@ -358,8 +418,8 @@ pub fn gen(tier: &str, seed: u64, out: &mut dyn Write) {
                 }
             }
         }
-        // valid fonts over every pre-state (the wipe, the plain-file refusal of remove_dir_all)
-        for pre in 0..6 {
+        // valid fonts over every pre-state (the wipe, the plain-file refusal of remove_dir_all, a symlinked target)
+        for pre in 0..7 {
             for load in 0..2 {
                 for _ in 0..3 {
                     let rich = rng.below(32) as u32;
@@ -406,6 +466,20 @@ pub fn gen(tier: &str, seed: u64, out: &mut dyn Write) {
             for &pre in &[2u32, 5] {
                 emit(out, &scratch, &format!("rich=31 load=1 stores=2 sabot=0 kinds={} pre={} part={} e=", k, pre, part));
             }
+        }
+    }
+    // refused saves onto a target that is a symbolic link to a populated directory elsewhere
+    for &k in &[1u32, 2, 4, 8, 32] {
+        for load in 0..2 {
+            emit(out, &scratch, &format!("rich={} load={} stores=1 sabot=0 kinds={} pre=6 e=", rng.below(32), load, k));
+        }
+    }
+    // rejected replacement of a never-read image, then save in place (the entry must stay tracked)
+    for stores in 1..=2 {
+        let (_, i) = store_set(stores);
+        for (key, _) in &i {
+            emit(out, &scratch, &format!("rich={} load=1 stores={} sabot=0 kinds=0 pre=5 e=ii.{}.x", rng.below(32), stores, hexs(key)));
+            emit(out, &scratch, &format!("rich={} load=1 stores={} sabot=0 kinds=0 pre=5 e=", rng.below(32), stores));
         }
     }
     // in-place histories: tree -> load -> edits -> save onto the source
